@@ -1,10 +1,10 @@
 (* C05 - Client: every operation completes exactly once under cancel, Close and failure.
    Property theorems only; every proof is `exact <lemma>` (lemmas in coq/cli/CliC05.v, CliProofs.v, CliLive.v,
-   CliHist.v, CliWg.v, CliStop.v, CliCloseWait.v; invariants in coq/cli/CliInv.v, CliRet.v, CliCtx.v, CliOps.v, CliHist.v, CliWg.v,
+   CliHist.v, CliWg.v, CliStop.v, CliCloseWait.v, CliGo.v; invariants in coq/cli/CliInv.v, CliRet.v, CliCtx.v, CliOps.v, CliHist.v, CliWg.v,
    CliStop.v). *)
 From Coq Require Import List NArith ZArith Bool Arith.
 From RecordUpdate Require Import RecordUpdate.
-From JV Require Import Bytes Msg CliModel CliLemmas CliInv CliRet CliProofs CliC05 CliCtx CliOps CliHist CliLive CliWg CliSend CliNoStop CliStep CliStop CliObs CliCloseWait.
+From JV Require Import Bytes Msg CliModel CliLemmas CliInv CliRet CliProofs CliC05 CliCtx CliOps CliHist CliLive CliWg CliSend CliNoStop CliStep CliStop CliObs CliCloseWait CliGo.
 Import ListNotations.
 
 (* EXACTLY ONE RETURN (full statement).  In every history of every schedule each operation (Call, Batch, Notify,
@@ -141,3 +141,18 @@ Theorem c05_close_waits : forall c tr s, traces_to c tr s ->
   /\ (forall h1 n r h2, hist s = h1 ++ ORet n (RetClose r) :: h2 -> forall o, In o h2 -> after_close_forbidden o = false).
 Proof. exact close_waits. Qed.
 Print Assumptions c05_close_waits.
+
+(* LEAVING NO GOROUTINE BEHIND.  [gcount s] counts the logical goroutines alive: the reader unless exited, deliveries
+   not yet run, callback handlers not finished, context watchers (waitComplete) blocked or parked, callers that have
+   not returned.  In a quiescent state of a stopped client whose reader is able to exit - the channel's Close unblocks
+   Recv (the property's assumption "the peer closes its end after seeing EOF"), or the reader has exited - there is
+   none: the reader has exited, every operation has returned, every watcher has ended (the first wait() on a response
+   settles it and cancels its context, and a returned operation has settled every request it registered), every
+   delivery and every callback handler is done. *)
+Theorem c05_no_goroutine_left : forall c tr s, traces_to c tr s -> quiescent s = true -> err s <> None ->
+  (c_unblock s = true \/ rd s = RExited) ->
+  gcount s = 0
+  /\ rd s = RExited /\ (forall o, In o (ops s) -> o_pc o = PDone) /\ (forall sl, In sl (slots s) -> watch_alive sl = false)
+  /\ (forall d, In d (delivs s) -> d_st d = DDone) /\ (forall cb, In cb (cbs s) -> cb_st cb = CbDone).
+Proof. exact no_goroutine_left. Qed.
+Print Assumptions c05_no_goroutine_left.
